@@ -99,10 +99,10 @@ func pushdownAllowed(opts *Opts, query *sql.Query) (bool, error) {
 		return false, nil
 	}
 
-	if query.FromSubQuery != nil {
-		if len(query.FromSubQuery.OrderBy) > 0 || query.FromSubQuery.Crosstab != nil || query.FromSubQuery.Limit > 0 || query.FromSubQuery.Offset > 0 {
-			// If subquery contains order by, crosstab, limit or offset, we can't push down
-			log.Debugf("Pushdown not allowed because subquery contains disallowed clause: %v", query.FromSubQuery.SQL)
+	for subQuery := query.FromSubQuery; subQuery != nil; subQuery = subQuery.FromSubQuery {
+		if len(subQuery.OrderBy) > 0 || subQuery.Crosstab != nil || subQuery.Limit > 0 || subQuery.Offset > 0 {
+			// If any subquery contains order by, crosstab, limit or offset, we can't push down
+			log.Debugf("Pushdown not allowed because subquery contains disallowed clause: %v", subQuery.SQL)
 			return false, nil
 		}
 	}
